@@ -637,6 +637,17 @@ pub fn read_tick_log(sim: &mut Sim, i: usize) {
         if fired > 1 {
             sim.fail("C12.fired_twice", format!("client {i}: MutateTickReceived for tick {t} fired {fired} times"));
         }
+        // "applied", not merely received: a mutate message waits in the client's buffer until the update message it depends
+        // on has arrived (the update tick never decreases, so looking at it at the end of the frame is conservative)
+        if let Some(&req) = sim.mut_req_upd[i].get(&t) {
+            let u = sim.clients[i].app.world().resource::<bevy_replicon::client::ServerUpdateTick>().get();
+            if req != 0 && tick_lt(u, req) && sim.upd_sent[i].contains(&req) {
+                sim.fail(
+                    "C12.fired_before_applied",
+                    format!("client {i}: MutateTickReceived for tick {t} while the client's update tick is {u}: that tick's mutate messages need update tick {req} and are still buffered"),
+                );
+            }
+        }
         match sent {
             None => sim.fail("C12.fired_unknown_tick", format!("client {i}: MutateTickReceived for tick {t} for which no mutate message was sent")),
             Some(n) if delivered < n => sim.fail(
